@@ -350,6 +350,46 @@ static const char* run_decode_compact(const Codec& c, const std::string& kind, c
 
 bool dispatch_codec(State& st, const std::string& op, const json& a, json& ret)
 {
+    if (op == "zlib_sweep")
+    {
+        // Round trips of  fill x N  +  tail  through zlib_compress / zlib_uncompress for every N in [from, to): the
+        // tail (noisy, tens of KiB) makes the stream span several working buffers, and N walks the position of the
+        // buffer boundaries through every residue.  Reports the N that fail and how often inflate() met the
+        // "input exhausted exactly when the output buffer is full" alignment (Z_BUF_ERROR, not fatal).
+        auto tail = js(a.at("tail"));
+        long long from = a.at("from").get<long long>(), to = a.at("to").get<long long>();
+        unsigned char fill = (unsigned char)a.value("fill", 0);
+        long long before = g_shim.inflate_buf_errors;
+        json fails = json::array();
+        long long n_ok = 0;
+        for (long long N = from; N < to; ++N)
+        {
+            std::vector<std::byte> data((size_t)N + tail.size(), std::byte{fill});
+            std::memcpy(data.data() + N, tail.data(), tail.size());
+            g_shim.inflate_calls = 0;
+            std::string what;
+            try
+            {
+                auto c = djinterop::engine::zlib_compress(data);
+                auto u = djinterop::engine::zlib_uncompress(c);
+                if (u == data)
+                    ++n_ok;
+                else
+                    what = "mismatch";
+            }
+            catch (const std::exception& e)
+            {
+                what = std::string("threw ") + exception_to_json(e)["type"].get<std::string>() + ": " + e.what();
+            }
+            if (!what.empty() && fails.size() < 8) fails.push_back({{"N", N}, {"what", what}});
+            else if (!what.empty()) fails.push_back(N);
+        }
+        g_shim.inflate_budget_exceeded = false;
+        ret["ok"] = n_ok;
+        ret["failures"] = fails;
+        ret["alignment_events"] = g_shim.inflate_buf_errors - before;
+        return true;
+    }
     if (op == "codec")
     {
         // {"fn": encode|decode|roundtrip|reencode|decode_reencode, "kind": K, "items": [...]}
